@@ -38,7 +38,6 @@ Proof.
   - unfold posz. intros _. destruct cost; destruct (find_cumul st id); cbn [absent andb];
       destruct ((2 <=? size)), (1 <=? prod); cbn [negb andb]; split; intros H; congruence.
   - unfold posz. destruct (negb (forallb _ listed)); [congruence|].
-    destruct (existsb _ listed); [congruence|].
     destruct ((2 <=? _) && (1 <=? n) && (n <=? _)) eqn:Hc; cbn [negb].
     + destruct (negb (Nat.eqb _ _)); [congruence|]. intros _.
       apply andb_true_iff in Hc as [Hc H3]. apply andb_true_iff in Hc as [H1 H2].
@@ -49,7 +48,8 @@ Proof.
     destruct r as [w|c|s].
     + destruct (find_worker st w); [|congruence]. intros _.
       destruct (existsb _ _); cbn [negb]; split; intros H; congruence.
-    + destruct (find_cumul st c); [|congruence]. intros _. split; intros H; congruence.
+    + destruct (find_cumul st c); [|congruence]. intros _.
+      destruct (existsb _ _); cbn [negb]; split; intros H; congruence.
     + destruct (find_select st (SUser s)); [|congruence]. intros _.
       destruct (existsb _ _); cbn [negb]; split; intros H; congruence.
   - destruct (find_cons st id); cbn [absent andb]; [intros _; split; auto|].
@@ -79,7 +79,7 @@ Lemma rule_duplicate_selection st id listed n k :
   step_problem st (ONewSelect id listed n k) <> Unsupported ->
   find_select st (SUser id) <> None -> step_problem st (ONewSelect id listed n k) = Err.
 Proof.
-  cbn [step_problem]. destruct (negb (forallb _ _)); [congruence|]. destruct (existsb _ _); [congruence|].
+  cbn [step_problem]. destruct (negb (forallb _ _)); [congruence|].
   destruct (negb (_ && _ && _)); [reflexivity|]. destruct (negb (Nat.eqb _ _)); [congruence|].
   destruct (find_select st _); congruence.
 Qed.
@@ -101,7 +101,7 @@ Lemma rule_selection_size st id listed n k :
   Z.of_nat (length listed) < 2 \/ Z.of_nat (length listed) < n \/ n < 1 ->
   step_problem st (ONewSelect id listed n k) = Err.
 Proof.
-  cbn [step_problem]. destruct (negb (forallb _ _)); [congruence|]. destruct (existsb _ _); [congruence|].
+  cbn [step_problem]. destruct (negb (forallb _ _)); [congruence|].
   intros _ H. unfold posz.
   replace ((2 <=? Z.of_nat (length listed)) && (1 <=? n) && (n <=? Z.of_nat (length listed))) with false; [reflexivity|].
   symmetry. destruct H as [H|[H|H]].
